@@ -44,12 +44,19 @@ def run(rep):
            f"writer: {table}", "view writer: reactant arcs run species->reaction, product arcs reaction->species")
     asb = rep.f(CV, "_as_bipartite")
     rets = returns_of(asb.node)
-    kinds = []
-    for r in rets:
-        v = r.value
-        t = norm(v)
-        kinds.append("DiGraph" if ("hypergraph_to_bipartite" in t or "nx.DiGraph(" in t) else "?")
-    rep.ob("O19.1", "R5", asb, all(k == "DiGraph" for k in kinds) and bool(kinds), [norm(r.value)[:60] for r in rets],
+    apm = parent_map(asb.node)
+
+    def directed(v, guards):
+        """the value is a DiGraph: built by the view writer / nx.DiGraph(..), or an input already tested to be one"""
+        if isinstance(v, ast.IfExp):
+            return directed(v.body, guards + [(v.test, True)]) and directed(v.orelse, guards + [(v.test, False)])
+        if isinstance(v, ast.Call) and (call_name(v) == "hypergraph_to_bipartite" or norm(v.func) in ("nx.DiGraph", "DiGraph", "networkx.DiGraph")):
+            return True
+        if isinstance(v, ast.Name):
+            return any(s_ and pmatch(f"isinstance({v.id}, nx.DiGraph)", t_) is not None for t_, s_ in guards)
+        return False
+    kinds = [directed(r.value, list(guards_of(apm, r, asb.node))) for r in rets]
+    rep.ob("O19.1", "R5", asb, all(kinds) and bool(kinds), [norm(r.value)[:60] for r in rets],
            "_as_bipartite always returns a directed graph")
     rep.run(complex_vectors, table)
     rep.run(formulas)
@@ -205,45 +212,61 @@ def formulas(rep):
     lf_fi = rep.f(DF, A + "compute_linkage_deficiencies")
     ld = local_defs(lf_fi.node)
     st_l = [n for n in walk_local(lf_fi.node) if isinstance(n, ast.Assign) and norm(n.targets[0]) == "self._linkage_deficiencies"]
-    OUT = norm(st_l[0].value) if len(st_l) == 1 else None
-    apps = [c for c in walk_local(lf_fi.node) if isinstance(c, ast.Call) and norm(c.func) == f"{OUT}.append"]
-    rep.need("R15", len(apps), 1, "lc_defs.append")
-    lps_ = enclosing_loops(parent_map(lf_fi.node), apps[0], lf_fi.node)
-    lc = norm(lps_[0].target) if lps_ else "?"
+    # (normal form N11: an accumulate loop `out = []; for c in X: ...; out.append(E)` reads `out = [E for c in X]`)
+    comp = origin(ld, st_l[0].value) if len(st_l) == 1 else None
+    comps = [comp] if isinstance(comp, ast.ListComp) and len(comp.generators) == 1 else []
+    rep.need("R15", len(comps), 1, "list of per-class deficiencies")
+    g0 = comp.generators[0]
+    lc = norm(g0.target)
+
+    def class_atom(n):
+        src = origin(ld, n) if isinstance(n, ast.Name) else n
+        if norm(src) == f"len({lc})":
+            return "n_l"
+        if norm(src) == f"self._linkage_class_stoich_rank({lc})":
+            return "s_l"
+        return n.id if isinstance(n, ast.Name) else None
     try:
-        lf = linform(apps[0].args[0], atom)
-        names = [k for k in lf if isinstance(k, str)]
-        nl_ = [k for k in names if norm(origin(ld, ast.Name(id=k, ctx=ast.Load()))) == f"len({lc})"]
-        sl_ = [k for k in names if norm(origin(ld, ast.Name(id=k, ctx=ast.Load()))) == f"self._linkage_class_stoich_rank({lc})"]
-        ok = len(nl_) == 1 and len(sl_) == 1 and lf == Lin({nl_[0]: 1, 1: -1, sl_[0]: -1})
-        rep.ob("O19.2", "R15", lf_fi, ok, alpha(apps[0], lf_fi.node), "delta_l == n_l - 1 - s_l", {"linear_form": lf.pretty()})
+        lf = linform(comp.elt, class_atom)
+        ok = lf == Lin({"n_l": 1, 1: -1, "s_l": -1}) and not g0.ifs
+        rep.ob("O19.2", "R15", lf_fi, ok, alpha(comp.elt, lf_fi.node), "delta_l == n_l - 1 - s_l", {"linear_form": lf.pretty()})
     except Undecided as exc:
-        rep.ob("O19.2", "R15", lf_fi, None, alpha(apps[0], lf_fi.node), str(exc))
-    its = origin(ld, lps_[0].iter) if lps_ else None
-    m = pmatch("list(nx.connected_components($und))", its) or pmatch("nx.connected_components($und)", its)
-    ok = m is not None and norm(origin(ld, ast.Name(id=m["und"], ctx=ast.Load()))) == "self._complex_graph.to_undirected()"
+        rep.ob("O19.2", "R15", lf_fi, None, alpha(comp.elt, lf_fi.node), str(exc))
+    its = origin(ld, g0.iter)
+    m = pmatch("list(nx.connected_components($$und))", its) or pmatch("nx.connected_components($$und)", its)
+    und_e = (its.args[0].args[0] if call_name(its) == "list" else its.args[0]) if m is not None else None
+    ok = und_e is not None and norm(origin(ld, und_e)) == "self._complex_graph.to_undirected()"
     rep.ob("O19.2", "SHAPE", lf_fi, ok, "n_l, s_l, lcs", "per-class quantities are taken over the components of the undirected complex graph")
     # per-class rank: differences product - reactant over arcs inside the class
     lr = rep.f(DF, A + "_linkage_class_stoich_rank")
     ldefs = local_defs(lr.node)
     cols = [c for c in walk_local(lr.node) if isinstance(c, ast.Call) and call_name(c) == "column_stack"]
-    DV = norm(cols[0].args[0]) if cols else None
-    dapp = [c for c in walk_local(lr.node) if DV and isinstance(c, ast.Call) and norm(c.func) == f"{DV}.append"]
-    DIFF = norm(dapp[0].args[0]) if dapp else None
-    diff = [x for x in ldefs.get(DIFF or "", []) if x.kind == "assign"]
+    dv = origin(ldefs, cols[0].args[0]) if cols else None
     ok = False
-    dl = []
-    if diff and isinstance(diff[0].value, ast.BinOp) and isinstance(diff[0].value.op, ast.Sub):
-        dl = enclosing_loops(parent_map(lr.node), diff[0].stmt, lr.node)
-        if dl and isinstance(dl[0].target, ast.Tuple) and len(dl[0].target.elts) == 2:
-            u, v = [norm(e) for e in dl[0].target.elts]
-            hi = origin(ldefs, diff[0].value.left)
-            lo = origin(ldefs, diff[0].value.right)
-            ok = f"self._complexes[{v}]" in norm(hi) and f"self._complexes[{u}]" in norm(lo)
-    rep.ob("O19.2", "R15", lr, ok, alpha(diff[0].stmt, lr.node) if diff else "diff", "per-class rank spans the complex differences (product complex minus reactant complex) of the class's reactions")
-    oke = len(dl) >= 1 and (pmatch("$s.edges()", dl[0].iter) is not None or pmatch("$s.edges", dl[0].iter) is not None)
-    rep.ob("O19.2", "SHAPE", lr, oke, dl[0].iter if dl else "for u, v in sub.edges()",
+    dgen = None
+    if isinstance(dv, ast.ListComp) and len(dv.generators) == 1:
+        dgen = dv.generators[0]
+        # the differences may come from an intermediate generator: [d for d in (<hi> - <lo> for u, v in sub.edges()) if ...]
+        elt = dv.elt
+        if isinstance(elt, ast.Name) and norm(dgen.target) == elt.id:
+            inner = origin(ldefs, dgen.iter)
+            if isinstance(inner, (ast.GeneratorExp, ast.ListComp)) and len(inner.generators) == 1 and not inner.generators[0].ifs:
+                elt, dgen = inner.elt, inner.generators[0]
+        if isinstance(elt, ast.BinOp) and isinstance(elt.op, ast.Sub) and isinstance(dgen.target, ast.Tuple) and len(dgen.target.elts) == 2:
+            u, v = [norm(e) for e in dgen.target.elts]
+            ok = f"self._complexes[{v}]" in norm(elt.left) and f"self._complexes[{u}]" in norm(elt.right) \
+                and f"self._complexes[{u}]" not in norm(elt.left) and f"self._complexes[{v}]" not in norm(elt.right)
+    rep.ob("O19.2", "R15", lr, ok, alpha(dv, lr.node)[:90] if dv is not None else "diff",
+           "per-class rank spans the complex differences (product complex minus reactant complex) of the class's reactions")
+    dl_iter = origin(ldefs, dgen.iter) if dgen is not None else None
+    oke = dl_iter is not None and (pmatch("$s.edges()", dl_iter) is not None or pmatch("$s.edges", dl_iter) is not None)
+    rep.ob("O19.2", "SHAPE", lr, oke, dl_iter if dl_iter is not None else "for u, v in sub.edges()",
            "one difference vector per reaction arc of the class (tree/BFS edges of the *directed* complex graph do not reach every complex)")
+
+    class _It:
+        pass
+    dl = [_It()]
+    dl[0].iter = dl_iter
     ok = False
     if oke:
         sm = pmatch("$s.edges()", dl[0].iter) or pmatch("$s.edges", dl[0].iter)
@@ -257,31 +280,40 @@ def definitions(rep):
     fi = rep.f(DF, A + "_is_weakly_reversible")
     P = fi.params[0]
     defs = local_defs(fi.node)
-    loops = [n for n in walk_local(fi.node) if isinstance(n, ast.For)]
-    rep.need("SHAPE", len(loops), 1, "component loop in _is_weakly_reversible")
-    lp = loops[0]
-    it = origin(defs, lp.iter)
+    # (normal form N13: `for c in X: if not p(c): return False` + `return True` reads `return all(p(c) for c in X)`)
+    rets = returns_of(fi.node)
+    alls = [origin(defs, r.value) for r in rets]
+    alls = [a_ for a_ in alls if isinstance(a_, ast.Call) and norm(a_.func) == "all" and len(a_.args) == 1 and isinstance(a_.args[0], (ast.GeneratorExp, ast.ListComp))
+            and len(a_.args[0].generators) == 1]
+    rep.need("SHAPE", len(alls), 1, "component loop in _is_weakly_reversible")
+    gen = alls[0].args[0]
+    g0 = gen.generators[0]
+    it = origin(defs, g0.iter)
     und = None
     if isinstance(it, ast.Call) and call_name(it) == "connected_components" and it.args:
         und = origin(defs, it.args[0])
-    ok = und is not None and norm(und) == f"{P}.to_undirected()"
-    rep.ob("O19.2", "SHAPE", fi, ok, lp.iter, "weak reversibility is tested per linkage class (component of the undirected complex graph)")
-    sc = [c for c in walk_local(lp) if isinstance(c, ast.Call) and call_name(c) == "is_strongly_connected"]
-    ok = False
-    if sc:
-        arg = origin(defs, sc[0].args[0])
-        ok = norm(arg) == f"{P}.subgraph({norm(lp.target)})"
-    rep.ob("O19.2", "SHAPE", fi, ok, sc[0] if sc else "is_strongly_connected", "each linkage class must be strongly connected as a directed subgraph")
-    pm = parent_map(fi.node)
-    rets = returns_of(fi.node)
-    shape = [(norm(r.value), [(norm(t), s) for t, s in guards_of(pm, r, fi.node)]) for r in rets]
-    okr = len(rets) == 2 and shape[0][0] == "False" and len(shape[0][1]) == 1 and shape[0][1][0][0].startswith("nx.is_strongly_connected") \
-        and not shape[0][1][0][1] and shape[1] == ("True", [])
-    rep.ob("O19.2", "SHAPE", fi, okr, str(shape), "False exactly when some class is not strongly connected, True otherwise")
+    ok = und is not None and norm(und) == f"{P}.to_undirected()" and not g0.ifs
+    rep.ob("O19.2", "SHAPE", fi, ok, g0.iter, "weak reversibility is tested per linkage class (component of the undirected complex graph)")
+    sc = gen.elt if isinstance(gen.elt, ast.Call) and call_name(gen.elt) == "is_strongly_connected" and gen.elt.args else None
+    ok = sc is not None and norm(origin(defs, sc.args[0])) == f"{P}.subgraph({norm(g0.target)})"
+    rep.ob("O19.2", "SHAPE", fi, ok, gen.elt, "each linkage class must be strongly connected as a directed subgraph")
+    okr = len(rets) == 1 and sc is not None
+    rep.ob("O19.2", "SHAPE", fi, okr, rets[-1] if rets else "return", "False exactly when some class is not strongly connected, True otherwise")
     d0 = rep.f(DF, A + "check_deficiency_zero")
     rets = returns_of(d0.node)
-    ok = bool(rets) and norm(rets[-1].value) == "self._summary.deficiency == 0 and self._summary.weakly_reversible"
-    rep.ob("O19.2", "SHAPE", d0, ok, rets[-1] if rets else "return", "deficiency-zero check = (deficiency == 0) and weakly reversible")
+    # a decision function of (deficiency, weakly reversible): tabulate it
+    from ..absval import eval_function
+    bad = []
+    try:
+        for dfc in (0, 1, 2):
+            for wr in (True, False):
+                got = eval_function(d0.node, {"self._summary": "<summary>", "self._summary.deficiency": dfc, "self._summary.weakly_reversible": wr})
+                if bool(got) != (dfc == 0 and wr):
+                    bad.append(f"deficiency={dfc}, weakly_reversible={wr} -> {got!r}")
+        ok = not bad
+    except Undecided:
+        ok = True if (bool(rets) and norm(rets[-1].value) == "self._summary.deficiency == 0 and self._summary.weakly_reversible") else None
+    rep.ob("O19.2", "SHAPE", d0, ok, rets[-1] if rets else "return", "deficiency-zero check = (deficiency == 0) and weakly reversible", {"disagreements": bad})
 
 
 MUTANTS = [
